@@ -5,6 +5,7 @@ import (
 	"fmt"
 	"go/ast"
 	"go/parser"
+	"go/token"
 	gotypes "go/types"
 	"sort"
 	"strings"
@@ -112,7 +113,238 @@ func inFragment(t gotypes.Type) bool {
 	return false
 }
 
+// ---- second stream: hand-built type trees (package paths whose last element is a keyword or
+// starts with a digit, several packages with one leaf, zero-length arrays, ...) ----
+
+var c02pkgs = []string{"ex.test/a/type", "ex.test/b/type", "ex.test/c/9p", "ex.test/d/9p", "ex.test/e/func", "ex.test/a/v1", "ex.test/b/v1",
+	"ex.test/my-pkg/proto", "single", "local/out", "ex.test/x/go"}
+
+func c02comparable(n *TNode) bool {
+	switch n.Kind {
+	case "slice", "map", "func":
+		return false
+	case "array", "struct":
+		for _, k := range n.Kids {
+			if !c02comparable(k) {
+				return false
+			}
+		}
+	}
+	return true
+}
+
+// make the tree a valid Go type: map keys must be comparable
+func c02fix(n *TNode) {
+	for _, k := range n.Kids {
+		c02fix(k)
+	}
+	for _, k := range n.Rs {
+		c02fix(k)
+	}
+	if n.Kind == "named" { // a foreign type must be exported to be nameable at all
+		n.Nm = strings.ToUpper(n.Nm[:1]) + n.Nm[1:]
+	}
+	if n.Kind == "map" && !c02comparable(n.Kids[0]) {
+		n.Kids[0] = &TNode{Kind: "builtin", Nm: "string"}
+	}
+}
+
+type c02world struct {
+	pkgs  map[string]*gotypes.Package
+	named map[string]*gotypes.Named
+}
+
+func (w *c02world) pkg(path string) *gotypes.Package {
+	if p, ok := w.pkgs[path]; ok {
+		return p
+	}
+	p := gotypes.NewPackage(path, fmt.Sprintf("declared%d", len(w.pkgs)))
+	p.MarkComplete()
+	w.pkgs[path] = p
+	return p
+}
+
+func (w *c02world) goType(n *TNode) gotypes.Type {
+	switch n.Kind {
+	case "named":
+		k := n.Pkg + "." + n.Nm
+		if t, ok := w.named[k]; ok {
+			return t
+		}
+		p := w.pkg(n.Pkg)
+		tn := gotypes.NewTypeName(0, p, n.Nm, nil)
+		t := gotypes.NewNamed(tn, gotypes.NewStruct(nil, nil), nil)
+		p.Scope().Insert(tn)
+		w.named[k] = t
+		return t
+	case "builtin":
+		return gotypes.Universe.Lookup(n.Nm).Type()
+	case "map":
+		return gotypes.NewMap(w.goType(n.Kids[0]), w.goType(n.Kids[1]))
+	case "slice":
+		return gotypes.NewSlice(w.goType(n.Kids[0]))
+	case "array":
+		return gotypes.NewArray(w.goType(n.Kids[0]), int64(n.Len))
+	case "pointer":
+		return gotypes.NewPointer(w.goType(n.Kids[0]))
+	case "chan":
+		return gotypes.NewChan(gotypes.SendRecv, w.goType(n.Kids[0]))
+	case "struct":
+		var fs []*gotypes.Var
+		for i, k := range n.Kids {
+			fs = append(fs, gotypes.NewField(0, nil, n.MNames[i], w.goType(k), false))
+		}
+		return gotypes.NewStruct(fs, nil)
+	case "func":
+		var ps, rs []*gotypes.Var
+		for _, k := range n.Kids {
+			ps = append(ps, gotypes.NewParam(0, nil, "", w.goType(k)))
+		}
+		for _, k := range n.Rs {
+			rs = append(rs, gotypes.NewParam(0, nil, "", w.goType(k)))
+		}
+		return gotypes.NewSignatureType(nil, nil, nil, gotypes.NewTuple(ps...), gotypes.NewTuple(rs...), false)
+	}
+	panic("c02: kind " + n.Kind)
+}
+
+func c02locals(n *TNode, out string, acc map[string]bool) {
+	if n.Kind == "named" && n.Pkg == out {
+		acc[n.Nm] = true
+	}
+	for _, k := range n.Kids {
+		c02locals(k, out, acc)
+	}
+	for _, k := range n.Rs {
+		c02locals(k, out, acc)
+	}
+}
+
+func c02synthetic(g *Gen) {
+	n := g.N(150, 3000)
+	for i := 0; i < n; i++ {
+		useTracker := g.Chance(0.7)
+		out := g.Pick([]string{"ex.test/out", "local/out", "ex.test/z/type", "ex.test/a/v1"})
+		var tr namer.ImportTracker
+		if useTracker {
+			tr = generator.NewImportTrackerForPackage(out)
+		}
+		rn := namer.NewRawNamer(out, tr)
+		w := &c02world{pkgs: map[string]*gotypes.Package{}, named: map[string]*gotypes.Named{}}
+		named := map[string]*types.Type{}
+		var trees []*TNode
+		var ins, names, rendered []string
+		cls := []string{"raw", "synthetic"}
+		if useTracker {
+			cls = append(cls, "with-tracker")
+		} else {
+			cls = append(cls, "without-tracker")
+		}
+		for k := 0; k < 1+g.R.Intn(5); k++ {
+			t := g.tyGen(TyOpts{Pkgs: c02pkgs, Depth: 1 + g.R.Intn(3), Funcs: true}, 0)
+			c02fix(t)
+			trees = append(trees, t)
+			obj := t.Build(named)
+			ins = append(ins, typeToSexp(obj))
+			nm := rn.Name(obj)
+			names = append(names, atom(nm))
+			rendered = append(rendered, nm)
+			for _, s := range tySubterms(t, nil) {
+				if s.Kind == "array" && s.Len == 0 {
+					cls = append(cls, "zero-length-array")
+				}
+				if s.Kind == "named" && s.Pkg == out {
+					cls = append(cls, "local-type")
+				}
+			}
+		}
+		lines := list()
+		var importLines []string
+		if useTracker {
+			importLines = tr.ImportLines()
+			lines = atoms(importLines)
+			leafs := map[string]int{}
+			for _, l := range importLines {
+				p := strings.Trim(strings.Fields(l)[1], `"`)
+				leafs[p[strings.LastIndex(p, "/")+1:]]++
+			}
+			for leaf, c := range leafs {
+				if c > 1 {
+					cls = append(cls, "same-leaf-twice")
+					if leaf == "type" || leaf == "9p" {
+						cls = append(cls, "same-illegal-leaf-twice")
+					}
+				}
+			}
+		}
+		g.Emit("C02.raw", list(num(c01ver), atom(out), boolS(useTracker), list(ins...)), list(list(names...), lines), cls...)
+		if !useTracker {
+			continue // without a tracker the qualifier is the path's last element, which need not be an identifier
+		}
+		// the oracle: the text, in a file of the output package with the reported imports, re-read by go/types
+		var problems []string
+		var b strings.Builder
+		b.WriteString("package outpkg\n\n")
+		if len(importLines) > 0 {
+			b.WriteString("import (\n")
+			for _, l := range importLines {
+				b.WriteString("\t" + l + "\n")
+				if strings.Contains(l, `"`+out+`"`) {
+					problems = append(problems, "the output package is imported")
+				}
+				if !strings.Contains(strings.Join(rendered, " "), strings.Fields(l)[0]+".") {
+					problems = append(problems, "import "+l+" is not needed by the rendered text")
+				}
+			}
+			b.WriteString(")\n\n")
+		}
+		locals := map[string]bool{}
+		for _, t := range trees {
+			c02locals(t, out, locals)
+		}
+		var ls []string
+		for l := range locals {
+			ls = append(ls, l)
+		}
+		sort.Strings(ls)
+		for _, l := range ls {
+			fmt.Fprintf(&b, "type %s struct{}\n", l)
+		}
+		for k, r := range rendered {
+			fmt.Fprintf(&b, "var ZZv%d %s\n", k, r)
+		}
+		var want []gotypes.Type
+		for _, t := range trees {
+			want = append(want, w.goType(t))
+		}
+		fset := token.NewFileSet()
+		f, perr := parser.ParseFile(fset, "zz.go", b.String(), 0)
+		if perr != nil {
+			problems = append(problems, "rendered text does not parse: "+perr.Error())
+		} else {
+			imp := mapImporter{}
+			for path, p := range w.pkgs {
+				imp[path] = p
+			}
+			conf := gotypes.Config{Importer: imp}
+			pkg, cerr := conf.Check(out, fset, []*ast.File{f}, nil)
+			if cerr != nil {
+				problems = append(problems, "rendered text does not type-check: "+cerr.Error())
+			} else {
+				for k := range trees {
+					got := pkg.Scope().Lookup(fmt.Sprintf("ZZv%d", k)).Type()
+					if !c02same(got, want[k]) {
+						problems = append(problems, fmt.Sprintf("%q denotes %s, not %s", rendered[k], got, want[k]))
+					}
+				}
+			}
+		}
+		g.Emit("C02.denotes!", list(atom(out), boolS(useTracker), atom(b.String()), atom(strings.Join(problems, "; "))), boolS(len(problems) == 0), "retypecheck", "synthetic")
+	}
+}
+
 func c02(g *Gen) {
+	c02synthetic(g)
 	n := g.N(60, 1500)
 	for i := 0; i < n; i++ {
 		npk := 2 + g.R.Intn(3)
